@@ -550,6 +550,14 @@ def r13_computed_keys_are_distinct(ctx):
                 iter_cols = any(isinstance(y, ast.Attribute) and y.attr == "columns" for g in x.generators for y in ast.walk(g.iter))
                 if used and iter_cols:
                     comps.append((x, sorted(used)[0]))
+        # loop form: `for old, new in <mapping>.items(): <x>.columns[new] = <x>.columns.pop(old)...`
+        for x in walk_no_nested(f.node):
+            if isinstance(x, ast.For) and isinstance(x.iter, ast.Call) and callee_last(x.iter) == "items" and isinstance(x.iter.func, ast.Attribute) \
+                    and isinstance(x.iter.func.value, ast.Name) and x.iter.func.value.id in params:
+                stores = [a for b in x.body for a in ast.walk(b) if isinstance(a, ast.Assign) and any(
+                    isinstance(t, ast.Subscript) and isinstance(t.value, ast.Attribute) and t.value.attr == "columns" for t in a.targets)]
+                if stores:
+                    comps.append((x, x.iter.func.value.id))
         if not comps:
             continue
         cfg = cfg_of(f.node)
@@ -560,6 +568,7 @@ def r13_computed_keys_are_distinct(ctx):
             st = dc
             while not isinstance(st, ast.stmt):
                 st = st._parent
+            what = txt(dc)[:60] if not isinstance(dc, ast.For) else f"for {txt(dc.target)} in {txt(dc.iter)}: ..."
             target = cfg.node_of(st)
             guarded = False
             for r in function_stmts(f):
@@ -575,7 +584,7 @@ def r13_computed_keys_are_distinct(ctx):
                         guarded = True
             ctx.ob("R13", f, f"{f.short}: the keys computed from `{mapping}` are checked to be distinct before the columns are re-keyed", guarded,
                    "a repeated target raises" if guarded else
-                   f"`{txt(dc)[:60]}` re-keys the columns with names taken from `{mapping}` and nothing rejects a repeated name: rename_columns({{'a': 'x', 'b': 'x'}}) returns a schema "
+                   f"`{what}` re-keys the columns with names taken from `{mapping}` and nothing rejects a repeated name: rename_columns({{'a': 'x', 'b': 'x'}}) returns a schema "
                    "without column a (last writer wins) instead of raising SchemaInitError", f.loc(dc))
     if n < 1:
         raise AnalysisError("dataframe/container.py: no transformation re-keys the columns from a caller-supplied mapping")
